@@ -23,7 +23,7 @@ import (
 var dateRe = regexp.MustCompile(`^[0-9]{4}-[0-9]{2}-[0-9]{2}$`)
 var pidRe = regexp.MustCompile(`\.pid[0-9]+`)
 
-const app = "v.app" // the dot is replaced by "-" in the file name (FormMetricFileName)
+const defaultApp = "v.app" // a dot is replaced by "-" in the file name (FormMetricFileName)
 
 type Interp struct {
 	clk       *vh.Clock
@@ -35,6 +35,7 @@ type Interp struct {
 	origIdx   []byte
 	searchers map[string]metric.MetricSearcher
 	pid       bool // file names carry ".pid<pid>" (config Log.UsePid)
+	app       string // the application name of this case (an opaque string for the log)
 	dead      bool // the writer died (cut / raw / rmidx): last-file snapshot taken
 }
 
@@ -169,7 +170,7 @@ func (it *Interp) lastDataFile() string {
 		seq        int
 	}
 	var xs []ent
-	prefix := metric.FormMetricFileName(app, it.pid) + "."
+	prefix := metric.FormMetricFileName(it.app, it.pid) + "."
 	for _, e := range es {
 		n := e.Name()
 		if e.IsDir() || strings.HasSuffix(n, ".idx") || !strings.HasPrefix(n, prefix) {
@@ -201,7 +202,7 @@ func (it *Interp) searcher(id string) metric.MetricSearcher {
 	s, ok := it.searchers[id]
 	if !ok {
 		var err error
-		s, err = metric.NewDefaultMetricSearcher(it.dir, metric.FormMetricFileName(app, it.pid))
+		s, err = metric.NewDefaultMetricSearcher(it.dir, metric.FormMetricFileName(it.app, it.pid))
 		if err != nil {
 			panic(err)
 		}
@@ -257,8 +258,17 @@ func (it *Interp) Step(t []string, op string) string {
 		it.dir = dir
 		cfg := config.NewDefaultConfig()
 		cfg.Sentinel.Log.Dir = dir
-		cfg.Sentinel.App.Name = app
-		it.pid = len(t) > 3 && t[3] == "pid"
+		it.pid, it.app = false, defaultApp
+		for _, o := range t[3:] {
+			if o == "pid" {
+				it.pid = true
+			} else if strings.HasPrefix(o, "app=") {
+				it.app = resOfTok(o[4:])
+			} else {
+				return "bad-op"
+			}
+		}
+		cfg.Sentinel.App.Name = it.app
 		cfg.Sentinel.Log.UsePid = it.pid
 		config.ResetGlobalConfig(cfg)
 		w, err := metric.NewDefaultMetricLogWriter(maxSize, uint32(maxFiles)) // app name from the config
@@ -274,7 +284,7 @@ func (it *Interp) Step(t []string, op string) string {
 		}
 		maxSize, maxFiles := vh.U(t[1]), vh.U(t[2])
 		it.closeWriter()
-		w, err := metric.NewDefaultMetricLogWriterOfApp(maxSize, uint32(maxFiles), app)
+		w, err := metric.NewDefaultMetricLogWriterOfApp(maxSize, uint32(maxFiles), it.app)
 		if err != nil {
 			return "err"
 		}
